@@ -249,7 +249,18 @@ macro_rules! impl_derivatives {
 
             #[inline]
             fn tanh(&self) -> Self {
-                self.sinh() / self.cosh()
+                if self.re().abs() < F::from(10.0).unwrap() {
+                    self.sinh() / self.cosh()
+                } else {
+                    // sinh and cosh overflow for large arguments, (1 - e^(-2|x|)) / (1 + e^(-2|x|)) does not
+                    let e2 = (self.abs() * F::from(-2.0).unwrap()).exp();
+                    let t = (Self::one() - &e2) / (Self::one() + e2);
+                    if self.is_negative() {
+                        -t
+                    } else {
+                        t
+                    }
+                }
             }
 
             #[inline]
